@@ -8,6 +8,10 @@
 #include <math.h>
 
 #define MAXN 16
+/* what kind of disagreement the last failed comparison found: 1 shape / fields / results (list model), 2 ownership (allocator census) */
+static int why_kind;
+#define STRUCT_FAIL (why_kind = 1, 0)
+#define OWNER_FAIL (why_kind = 2, 0)
 
 static cJSON *np[MAXN + 1];      /* id -> node of the concretised pre-state */
 static cJSON *bp[MAXN + 1];      /* id -> node binding while comparing a post-state */
@@ -69,6 +73,7 @@ static int concretise(const jv *st, char *why, size_t wn)
 
 static int str_readable(const char *p) { return p && (al_is_live(p) || cm_owns(p)); }
 
+
 /* compare the concrete heap with abstract state post under the binding bp[]; result res already bound */
 static int compare_state(const jv *post, char *why, size_t wn)
 {
@@ -79,21 +84,21 @@ static int compare_state(const jv *post, char *why, size_t wn)
             const jv *r = post->e[i-1]; cJSON *n = bp[i]; int f;
             static const int linkf[3] = { F_NX, F_PV, F_CH };
             if (!is_live_rec(r) || !n) continue;
-            if (!al_is_live(n)) { snprintf(why, wn, "node %zu should be live but its block is released", i); return 0; }
+            if (!al_is_live(n)) { snprintf(why, wn, "node %zu should be live but its block is released", i); return OWNER_FAIL; }
             for (f = 0; f < 3; f++) {
                 long e = fld(r, linkf[f]);
                 cJSON *q = (linkf[f] == F_NX) ? n->next : (linkf[f] == F_PV) ? n->prev : n->child;
                 static const char *nm[3] = { "next", "prev", "child" };
-                if (e == 0) { if (q != NULL) { snprintf(why, wn, "node %zu: %s should be NULL", i, nm[f]); return 0; } continue; }
-                if (q == NULL) { snprintf(why, wn, "node %zu: %s is NULL, expected node %ld", i, nm[f], e); return 0; }
+                if (e == 0) { if (q != NULL) { snprintf(why, wn, "node %zu: %s should be NULL", i, nm[f]); return STRUCT_FAIL; } continue; }
+                if (q == NULL) { snprintf(why, wn, "node %zu: %s is NULL, expected node %ld", i, nm[f], e); return STRUCT_FAIL; }
                 if (bp[e] == NULL) {
                     size_t j;
-                    for (j = 1; j <= NN; j++) if (bp[j] == q) { snprintf(why, wn, "node %zu: %s designates node %zu, expected (new) node %ld", i, nm[f], j, e); return 0; }
+                    for (j = 1; j <= NN; j++) if (bp[j] == q) { snprintf(why, wn, "node %zu: %s designates node %zu, expected (new) node %ld", i, nm[f], j, e); return STRUCT_FAIL; }
                     bp[e] = q; changed = 1;
                 } else if (bp[e] != q) {
                     size_t j, who = 0;
                     for (j = 1; j <= NN; j++) if (bp[j] == q) who = j;
-                    snprintf(why, wn, "node %zu: %s designates node %zu, expected node %ld", i, nm[f], who, e); return 0;
+                    snprintf(why, wn, "node %zu: %s designates node %zu, expected node %ld", i, nm[f], who, e); return STRUCT_FAIL;
                 }
             }
         }
@@ -102,34 +107,34 @@ static int compare_state(const jv *post, char *why, size_t wn)
     for (i = 1; i <= NN; i++) {
         const jv *r = post->e[i-1]; cJSON *n = bp[i]; int isnull, exptype; char *s; blk *nb;
         if (!is_live_rec(r)) continue;
-        if (!n) { snprintf(why, wn, "expected node %zu is not reachable in the implementation's heap", i); return 0; }
+        if (!n) { snprintf(why, wn, "expected node %zu is not reachable in the implementation's heap", i); return STRUCT_FAIL; }
         nb = al_find(n);
-        if (!nb || nb->state != 1) { snprintf(why, wn, "node %zu: block released", i); return 0; }
+        if (!nb || nb->state != 1) { snprintf(why, wn, "node %zu: block released", i); return OWNER_FAIL; }
         nb->tag++;
         exptype = kind_code(jv_at(r, F_K)->s) | (fld(r, F_REF) ? cJSON_IsReference : 0) | (fld(r, F_CK) ? cJSON_StringIsConst : 0);
-        if (n->type != exptype) { snprintf(why, wn, "node %zu: type is 0x%x, expected 0x%x", i, (unsigned)n->type, (unsigned)exptype); return 0; }
+        if (n->type != exptype) { snprintf(why, wn, "node %zu: type is 0x%x, expected 0x%x", i, (unsigned)n->type, (unsigned)exptype); return STRUCT_FAIL; }
         s = jv_bytes(jv_at(r, F_KEY), &isnull);
-        if (isnull) { if (n->string) { snprintf(why, wn, "node %zu: key should be NULL", i); return 0; } }
+        if (isnull) { if (n->string) { snprintf(why, wn, "node %zu: key should be NULL", i); return STRUCT_FAIL; } }
         else {
-            if (!n->string) { snprintf(why, wn, "node %zu: key is NULL", i); return 0; }
-            if (!str_readable(n->string)) { snprintf(why, wn, "node %zu: key points to released or foreign memory", i); return 0; }
-            if (strcmp(n->string, s) != 0) { snprintf(why, wn, "node %zu: key is \"%s\", expected \"%s\"", i, n->string, s); return 0; }
-            if (fld(r, F_CK)) { if (!cm_owns(n->string)) { snprintf(why, wn, "node %zu: constant key was copied", i); return 0; } }
-            else { blk *kb = al_find(n->string); if (!kb || kb->state != 1) { snprintf(why, wn, "node %zu: owned key is not a live block", i); return 0; } kb->tag++; }
+            if (!n->string) { snprintf(why, wn, "node %zu: key is NULL", i); return STRUCT_FAIL; }
+            if (!str_readable(n->string)) { snprintf(why, wn, "node %zu: key points to released or foreign memory", i); return OWNER_FAIL; }
+            if (strcmp(n->string, s) != 0) { snprintf(why, wn, "node %zu: key is \"%s\", expected \"%s\"", i, n->string, s); return STRUCT_FAIL; }
+            if (fld(r, F_CK)) { if (!cm_owns(n->string)) { snprintf(why, wn, "node %zu: constant key was copied", i); return OWNER_FAIL; } }
+            else { blk *kb = al_find(n->string); if (!kb || kb->state != 1) { snprintf(why, wn, "node %zu: owned key is not a live block", i); return OWNER_FAIL; } kb->tag++; }
         }
         s = jv_bytes(jv_at(r, F_VS), &isnull);
-        if (isnull) { if (n->valuestring) { snprintf(why, wn, "node %zu: valuestring should be NULL", i); return 0; } }
+        if (isnull) { if (n->valuestring) { snprintf(why, wn, "node %zu: valuestring should be NULL", i); return STRUCT_FAIL; } }
         else {
-            if (!n->valuestring) { snprintf(why, wn, "node %zu: valuestring is NULL", i); return 0; }
-            if (!str_readable(n->valuestring)) { snprintf(why, wn, "node %zu: valuestring points to released or foreign memory", i); return 0; }
-            if (strcmp(n->valuestring, s) != 0) { snprintf(why, wn, "node %zu: valuestring is \"%s\", expected \"%s\"", i, n->valuestring, s); return 0; }
-            if (!fld(r, F_REF)) { blk *vb = al_find(n->valuestring); if (!vb || vb->state != 1) { snprintf(why, wn, "node %zu: owned valuestring is not a live block", i); return 0; } vb->tag++; }
+            if (!n->valuestring) { snprintf(why, wn, "node %zu: valuestring is NULL", i); return STRUCT_FAIL; }
+            if (!str_readable(n->valuestring)) { snprintf(why, wn, "node %zu: valuestring points to released or foreign memory", i); return OWNER_FAIL; }
+            if (strcmp(n->valuestring, s) != 0) { snprintf(why, wn, "node %zu: valuestring is \"%s\", expected \"%s\"", i, n->valuestring, s); return STRUCT_FAIL; }
+            if (!fld(r, F_REF)) { blk *vb = al_find(n->valuestring); if (!vb || vb->state != 1) { snprintf(why, wn, "node %zu: owned valuestring is not a live block", i); return OWNER_FAIL; } vb->tag++; }
             else if (fld(r, F_OF) != 0 && !fld(r, F_SIB)) {
-                if (bp[fld(r, F_OF)] && n->valuestring != bp[fld(r, F_OF)]->valuestring) { snprintf(why, wn, "node %zu: reference does not share the referenced item's text", i); return 0; }
+                if (bp[fld(r, F_OF)] && n->valuestring != bp[fld(r, F_OF)]->valuestring) { snprintf(why, wn, "node %zu: reference does not share the referenced item's text", i); return OWNER_FAIL; }
             }
         }
         if (kind_code(jv_at(r, F_K)->s) == cJSON_Number) {
-            if (n->valuedouble != (double)fld(r, F_NUM) || n->valueint != (int)fld(r, F_NUM)) { snprintf(why, wn, "node %zu: number is %g/%d, expected %ld", i, n->valuedouble, n->valueint, fld(r, F_NUM)); return 0; }
+            if (n->valuedouble != (double)fld(r, F_NUM) || n->valueint != (int)fld(r, F_NUM)) { snprintf(why, wn, "node %zu: number is %g/%d, expected %ld", i, n->valuedouble, n->valueint, fld(r, F_NUM)); return STRUCT_FAIL; }
         }
     }
     for (b = al_all; b; b = b->nextall) if (b->state == 1 && b->tag != 1) {
@@ -137,8 +142,8 @@ static int compare_state(const jv *post, char *why, size_t wn)
                                       : "a block of %zu bytes (request #%lu) is owned more than once", b->size, (unsigned long)b->seq);
         return 0;
     }
-    if (al_bad_free) { snprintf(why, wn, "%ld release(s) of a pointer that is not a live block (double or foreign free)", al_bad_free); return 0; }
-    if (!cm_intact(why, wn)) return 0;
+    if (al_bad_free) { snprintf(why, wn, "%ld release(s) of a pointer that is not a live block (double or foreign free)", al_bad_free); return OWNER_FAIL; }
+    if (!cm_intact(why, wn)) return OWNER_FAIL;
     return 1;
 }
 
@@ -162,7 +167,7 @@ static int run_call(const jv *act, cres *r, char *why, size_t wn)
         int kc = kind_code(A(1)->s); WIN(2);
         switch (kc) { case cJSON_NULL: RPTR(cJSON_CreateNull()); break; case cJSON_True: RPTR(cJSON_CreateTrue()); break;
             case cJSON_False: RPTR(cJSON_CreateFalse()); break; case cJSON_Array: RPTR(cJSON_CreateArray()); break;
-            case cJSON_Object: RPTR(cJSON_CreateObject()); break; default: snprintf(why, wn, "bad kind"); return 0; }
+            case cJSON_Object: RPTR(cJSON_CreateObject()); break; default: snprintf(why, wn, "bad kind"); return STRUCT_FAIL; }
     } else if (!strcmp(a, "CreateNumber")) { WIN(2); RPTR(cJSON_CreateNumber((double)jv_int(A(1))));
     } else if (!strcmp(a, "CreateStr")) { char *s = K_(A(2)); WIN(3); RPTR(kind_code(A(1)->s) == cJSON_Raw ? cJSON_CreateRaw(s) : cJSON_CreateString(s));
     } else if (!strcmp(a, "CreateStringReference")) { char *s = K_(A(1)); WIN(2); RPTR(cJSON_CreateStringReference(s));
@@ -178,7 +183,7 @@ static int run_call(const jv *act, cres *r, char *why, size_t wn)
             case cJSON_False: RPTR(cJSON_AddBoolToObject(p, k, 0)); break; case cJSON_Number: RPTR(cJSON_AddNumberToObject(p, k, d)); break;
             case cJSON_String: RPTR(cJSON_AddStringToObject(p, k, s)); break; case cJSON_Raw: RPTR(cJSON_AddRawToObject(p, k, s)); break;
             case cJSON_Array: RPTR(cJSON_AddArrayToObject(p, k)); break; case cJSON_Object: RPTR(cJSON_AddObjectToObject(p, k)); break;
-            default: snprintf(why, wn, "bad kind"); return 0; }
+            default: snprintf(why, wn, "bad kind"); return STRUCT_FAIL; }
     } else if (!strcmp(a, "DetachItemViaPointer")) { al_window(0); RPTR(cJSON_DetachItemViaPointer(N_(A(1)), N_(A(2))));
     } else if (!strcmp(a, "DetachItemFromArray")) { al_window(0); RPTR(cJSON_DetachItemFromArray(N_(A(1)), (int)jv_int(A(2))));
     } else if (!strcmp(a, "DetachItemFromObject")) { char *k = K_(A(2)); al_window(0); RPTR(cJSON_DetachItemFromObject(N_(A(1)), k));
@@ -194,7 +199,7 @@ static int run_call(const jv *act, cres *r, char *why, size_t wn)
     } else if (!strcmp(a, "ReplaceItemInObjectCaseSensitive")) { char *k = K_(A(2)); WIN(4); RBOOL(cJSON_ReplaceItemInObjectCaseSensitive(N_(A(1)), k, N_(A(3))));
     } else if (!strcmp(a, "SetNumberHelper")) { al_window(0); r->d = cJSON_SetNumberHelper(N_(A(1)), (double)jv_int(A(2))); r->t = 4;
     } else if (!strcmp(a, "SetValuestring")) { char *s = K_(A(2)); cJSON *it = N_(A(1)); WIN(3); r->s = cJSON_SetValuestring(it, s); r->t = r->s ? 5 : 0;
-        if (r->s && it && r->s != it->valuestring) { snprintf(why, wn, "SetValuestring returned a pointer that is not the item's valuestring"); return 0; }
+        if (r->s && it && r->s != it->valuestring) { snprintf(why, wn, "SetValuestring returned a pointer that is not the item's valuestring"); return STRUCT_FAIL; }
     } else if (!strcmp(a, "SetBoolValue")) { cJSON *it = N_(A(1)); int b = (int)jv_int(A(2)); al_window(0); r->ty = cJSON_SetBoolValue(it, b); r->t = 6;
     } else if (!strcmp(a, "CreateIntArray")) {
         int cnt = (int)jv_int(A(1)); int isnull = (int)jv_int(A(2)); int nums[8] = {0}; size_t k; const jv *v = A(3);
@@ -214,7 +219,7 @@ static int run_call(const jv *act, cres *r, char *why, size_t wn)
     } else if (!strcmp(a, "EnvMakeCycle")) { N_(A(1))->child = N_(A(2)); r->t = 3;      /* the caller's own doing, not a library call */
     } else if (!strcmp(a, "EnvBreakCycle")) { N_(A(1))->child = NULL; r->t = 3;
     } else if (!strcmp(a, "SortObject")) { al_window(0); if (jv_int(A(2))) cJSONUtils_SortObjectCaseSensitive(N_(A(1))); else cJSONUtils_SortObject(N_(A(1))); r->t = 3;
-    } else { snprintf(why, wn, "unknown action %s", a); return 0; }
+    } else { snprintf(why, wn, "unknown action %s", a); return STRUCT_FAIL; }
     al_fail_at = 0;
     return 1;
 }
@@ -223,42 +228,61 @@ static int run_call(const jv *act, cres *r, char *why, size_t wn)
 static int match_res(const jv *res, const cres *r, char *why, size_t wn)
 {
     const char *t = jv_get(res, "t")->s;
-    if (!strcmp(t, "null")) { if (r->t != 0) { snprintf(why, wn, "result should be NULL"); return 0; } return 1; }
+    if (!strcmp(t, "null")) { if (r->t != 0) { snprintf(why, wn, "result should be NULL"); return STRUCT_FAIL; } return 1; }
     if (!strcmp(t, "ptr")) {
         long id = jv_int(jv_get(res, "id"));
-        if (r->t != 1) { snprintf(why, wn, "result is %s, expected node %ld", r->t == 0 ? "NULL" : "of another kind", id); return 0; }
-        if (bp[id] && bp[id] != r->ptr) { snprintf(why, wn, "result designates another node than %ld", id); return 0; }
-        if (!bp[id]) { size_t j; for (j = 1; j <= NN; j++) if (bp[j] == r->ptr) { snprintf(why, wn, "result designates existing node %zu, expected new node %ld", j, id); return 0; } bp[id] = r->ptr; }
+        if (r->t != 1) { snprintf(why, wn, "result is %s, expected node %ld", r->t == 0 ? "NULL" : "of another kind", id); return STRUCT_FAIL; }
+        if (bp[id] && bp[id] != r->ptr) { snprintf(why, wn, "result designates another node than %ld", id); return STRUCT_FAIL; }
+        if (!bp[id]) { size_t j; for (j = 1; j <= NN; j++) if (bp[j] == r->ptr) { snprintf(why, wn, "result designates existing node %zu, expected new node %ld", j, id); return STRUCT_FAIL; } bp[id] = r->ptr; }
         return 1;
     }
-    if (!strcmp(t, "bool")) { if (r->t != 2 || r->b != (int)jv_int(jv_get(res, "v"))) { snprintf(why, wn, "result flag is %d, expected %ld", r->b, jv_int(jv_get(res, "v"))); return 0; } return 1; }
+    if (!strcmp(t, "bool")) { if (r->t != 2 || r->b != (int)jv_int(jv_get(res, "v"))) { snprintf(why, wn, "result flag is %d, expected %ld", r->b, jv_int(jv_get(res, "v"))); return STRUCT_FAIL; } return 1; }
     if (!strcmp(t, "void")) return 1;
-    if (!strcmp(t, "num")) { if (r->t != 4 || r->d != (double)jv_int(jv_get(res, "v"))) { snprintf(why, wn, "numeric result %g, expected %ld", r->d, jv_int(jv_get(res, "v"))); return 0; } return 1; }
-    if (!strcmp(t, "str")) { int isnull; char *s = jv_bytes(jv_get(res, "v"), &isnull); if (r->t != 5 || !str_readable(r->s) || strcmp(r->s, s) != 0) { snprintf(why, wn, "string result differs"); return 0; } return 1; }
-    if (!strcmp(t, "type")) { int e = kind_code(jv_get(res, "v")->s); if (r->t != 6 || r->ty != e) { snprintf(why, wn, "type result 0x%x, expected 0x%x", (unsigned)r->ty, (unsigned)e); return 0; } return 1; }
+    if (!strcmp(t, "num")) { if (r->t != 4 || r->d != (double)jv_int(jv_get(res, "v"))) { snprintf(why, wn, "numeric result %g, expected %ld", r->d, jv_int(jv_get(res, "v"))); return STRUCT_FAIL; } return 1; }
+    if (!strcmp(t, "str")) { int isnull; char *s = jv_bytes(jv_get(res, "v"), &isnull); if (r->t != 5 || !str_readable(r->s) || strcmp(r->s, s) != 0) { snprintf(why, wn, "string result differs"); return STRUCT_FAIL; } return 1; }
+    if (!strcmp(t, "type")) { int e = kind_code(jv_get(res, "v")->s); if (r->t != 6 || r->ty != e) { snprintf(why, wn, "type result 0x%x, expected 0x%x", (unsigned)r->ty, (unsigned)e); return STRUCT_FAIL; } return 1; }
     snprintf(why, wn, "unknown result kind %s", t);
     return 0;
 }
 
 static void case_begin(void) { al_case_begin(); cm_case_begin(); }
 
+/* which properties an observation on this call contradicts: kind 0 = memory fault (all), 1 = list model, 2 = ownership */
+static void tviol(const jv *act, int kind, const char *msg)
+{
+    const char *a = jv_at(act, 0)->s; char owners[64] = ""; long f = 0;
+    const jv *last = jv_at(act, act->n - 1);
+    if (last && last->t == JV_INT && (strstr(a, "Create") || strstr(a, "Add") || strstr(a, "Replace") || !strcmp(a, "Duplicate") || !strcmp(a, "SetValuestring"))) f = last->i;
+    if (kind == 0) strcat(owners, "*");
+    else {
+        strcat(owners, kind == 1 ? "C06 " : "C07 ");
+        if (kind == 1 && (strstr(msg, "type is") || strstr(msg, "key") || strstr(msg, "valuestring"))) strcat(owners, "C07 ");
+        if (f > 0) strcat(owners, "C08 ");
+        if (!strcmp(a, "Duplicate")) strcat(owners, "C11 ");
+        if (!strcmp(a, "SortObject")) strcat(owners, "C19 C06 ");
+    }
+    if (owners[0] != '*' && strstr(owners, VD.prop) == NULL) { VD.by_kind[0]++; return; }
+    vd_violation("%s: %s", a, msg);
+}
+
 static int do_transition(const jv *line)
 {
     const jv *act = jv_at(line, 1), *pre = jv_at(line, 2), *outs = jv_at(line, 3);
-    char why[512] = "", why1[512] = ""; cres r; size_t k; int ok = 0; size_t matched = 0;
+    char why[512] = "", why1[512] = ""; cres r; size_t k; int ok = 0; size_t matched = 0; int kind1 = 1;
     case_begin();
     if (!concretise(pre, why, sizeof(why))) { fprintf(stderr, "vdrv: %s\n", why); return -1; }
     if (VD_TRY()) {
         al_in_call = 1;
-        if (!run_call(act, &r, why, sizeof(why))) { al_in_call = 0; VD_END(); if (strstr(why, "unknown action") || strstr(why, "bad kind")) { fprintf(stderr, "vdrv: %s\n", why); return -1; } vd_violation("%s: %s", jv_at(act, 0)->s, why); return 0; }
+        if (!run_call(act, &r, why, sizeof(why))) { al_in_call = 0; VD_END(); if (strstr(why, "unknown action") || strstr(why, "bad kind")) { fprintf(stderr, "vdrv: %s\n", why); return -1; } tviol(act, 1, why); return 0; }
         al_in_call = 0;
         for (k = 0; k < outs->n && !ok; k++) {
             const jv *post = jv_at(outs->e[k], 0), *res = jv_at(outs->e[k], 1);
             memcpy(bp, np, sizeof(bp));
             /* ids that are free in the pre-state are unbound */
             { size_t i; for (i = 1; i <= NN; i++) if (!is_live_rec(pre->e[i-1])) bp[i] = NULL; }
+            why_kind = 1;
             if (match_res(res, &r, why, sizeof(why)) && compare_state(post, why, sizeof(why))) { ok = 1; matched = k; }
-            else if (k == 0) memcpy(why1, why, sizeof(why1));
+            else if (k == 0) { memcpy(why1, why, sizeof(why1)); kind1 = why_kind; }
         }
         if (ok) {
             /* epilogue (C07): releasing every caller-held root returns the allocator to balance */
@@ -270,16 +294,16 @@ static int do_transition(const jv *line)
             }
             (void)cyclic;
             for (i = 1; i <= NN; i++) if (is_live_rec(post->e[i-1]) && fld(post->e[i-1], F_ROOT)) cJSON_Delete(bp[i]);
-            if (al_live != 0 || al_bad_free != 0) { ok = 0; snprintf(why1, sizeof(why1), "after deleting all roots %ld block(s) remain allocated and %ld invalid release(s) were made", al_live, al_bad_free); }
-            else if (!cm_intact(why1, sizeof(why1))) ok = 0;
+            if (al_live != 0 || al_bad_free != 0) { ok = 0; kind1 = 2; snprintf(why1, sizeof(why1), "after deleting all roots %ld block(s) remain allocated and %ld invalid release(s) were made", al_live, al_bad_free); }
+            else if (!cm_intact(why1, sizeof(why1))) { ok = 0; kind1 = 2; }
         }
         VD_END();
     } else {
         al_in_call = 0;
         snprintf(why1, sizeof(why1), "%s during the call (address %p)", vd_fault_sig == SIGALRM ? "no progress for 5 s (hang)" : "memory fault / abort", (void*)vd_fault_addr);
-        ok = 0;
+        ok = 0; kind1 = 0;
     }
-    if (!ok) { vd_violation("%s: %s", jv_at(act, 0)->s, why1); return 0; }
+    if (!ok) { tviol(act, kind1, why1); return 0; }
     if (matched > 0) VD.drift++;
     return 1;
 }
@@ -328,7 +352,7 @@ static int do_state(const jv *line)
         if (ok) { memcpy(bp, np, sizeof(bp)); ok = compare_state(st, why, sizeof(why)); }
         VD_END();
     } else { al_in_call = 0; snprintf(why, sizeof(why), "memory fault / hang during a query"); ok = 0; }
-    if (!ok) { vd_violation("query: %s", why); return 0; }
+    if (!ok) { if (strstr(why, "memory fault") || strstr("C06", VD.prop)) vd_violation("query: %s", why); else VD.by_kind[0]++; return 0; }
     return 1;
 }
 
